@@ -608,6 +608,37 @@ def universe_problems(x, path="") -> list[str]:
     return []
 
 
+def py_norm(x):
+    """Python counterpart of the model's `norm`: a deep copy of x with tuple/set -> list, bytearray -> bytes and every
+    BytesIO replaced by a fresh one at position 0; dict keys, entry order, classes and all other leaves unchanged.
+    C05_roundtrip_same_object says the restored object IS norm x, so every derived view (text built with str() of a
+    cell, tables, units) is compared between py_norm(original) and restored — not between original and restored:
+    str(bytearray(b'..')) and str(b'..') differ although the payload is the same."""
+    if isinstance(x, io.BytesIO):
+        return io.BytesIO(x.getvalue())
+    if isinstance(x, (bytes, bytearray)):
+        return bytes(x)
+    if dataclasses.is_dataclass(x) and not isinstance(x, type):
+        y = copy.copy(x)
+        for f in dataclasses.fields(x):
+            object.__setattr__(y, f.name, py_norm(getattr(x, f.name)))
+        return y
+    if isinstance(x, dict):
+        d = {k: py_norm(v) for k, v in x.items()}
+        if type(x) is dict:
+            return d
+        try:                      # dict subclasses (ImageMetadata is handled above as a dataclass)
+            y = copy.copy(x)
+            y.clear()
+            y.update(d)
+            return y
+        except Exception:  # noqa
+            return d
+    if isinstance(x, (list, tuple, set, frozenset)):
+        return [py_norm(v) for v in x]
+    return copy.copy(x) if not isinstance(x, (str, int, float, bool, type(None))) else x
+
+
 def nonstring_keys(x, path="") -> list[str]:
     """Dict keys that are not str, anywhere in the value."""
     if dataclasses.is_dataclass(x) and not isinstance(x, type):
@@ -697,7 +728,7 @@ def same_object_views(x, y, strict: bool = True) -> list[str]:
         diffs.append("restored object differs from the original (deep comparison incl. dict key types): "
                      + first_typed_diff(typed(x), typed(y)))
     try:
-        xa = accessor_views(copy.deepcopy(x))
+        xa = accessor_views(py_norm(x))     # views of `norm x`, the object the theorem says comes back
     except Exception:  # noqa
         xa = {}
     for name, a in xa.items():
